@@ -266,3 +266,16 @@ PROPS["C15"] = {
     "thorough": [{"variant": "default", "cases": 250000, "params": {"case_timeout": 120}, "timeout": 3400}, {"variant": "checks", "cases": 20000, "params": {"case_timeout": 120}, "timeout": 3400}],
     "floors": {"any": {"runs": 1500, "stop_saturated": 500, "stop_iteration_limit": 40, "stop_node_limit": 15, "stop_other": 60, "apply_rewrites_returned_false": 300, "saturated_matches_checked": 500}},
 }
+
+PROPS["C20"] = {
+    "rule": "cases: a history of 6-16 operations over LPay (Symbol, u32, i64 and bool payloads; insertions, unions, rewrite iterations incl. a b[x:=t] rule, e-matching, extraction, dump) is replayed "
+            "(a) once alone as baseline, (b) in 4 fresh threads released by a barrier together with 4 noise threads that build unrelated e-graphs and intern unrelated symbols, with yields "
+            "injected at operation boundaries, (c) in 3 separate processes whose stdout (including EGraph::dump output) is compared line by line. Transcript = every returned invocation and "
+            "slot set, find results, ids(), node counts, progress, match lists in returned order, extracted terms and costs, final class listings. The monitor logs (thread, operation) at every "
+            "boundary; distinct_nontrivial counts distinct histories plus distinct observed schedule prefixes (first 12 boundary crossings of the replay threads).",
+    "assumptions": ["a library without locks can only be interleaved at operation boundaries; address/seed dependence needing a particular heap layout is only sampled by the 3 processes"],
+    "quick": [{"variant": "default", "cases": 160, "params": {"processes": 3}, "timeout": 900}, {"variant": "default", "cases": 600, "params": {"processes": 0}, "timeout": 900}],
+    "thorough": [{"variant": "default", "cases": 12000, "params": {"processes": 3}, "timeout": 3400}, {"variant": "default", "cases": 60000, "params": {"processes": 0}, "timeout": 3400},
+                 {"variant": "explanations", "cases": 4000, "params": {"processes": 0}, "timeout": 3400}],
+    "floors": {"any": {"thread_replays": 2000, "process_replays": 300, "dump_lines_compared": 1000, "thread_switches_observed": 5000, "noise_iterations_during_replays": 5000}},
+}
